@@ -744,7 +744,7 @@ def run(res, tier):
         ingroup(facts, cls, name, cnt, res)
     res.rule("C16.4 the binary-search helper keeps first <= partition point <= first + count, probes only inside the range, makes progress and returns first: verification conditions of the loop body checked on every state with first 0..3, count 1..14 (completeness of the in-group lookups given sorted cells, C07, and the strict comparator, C16.1)")
     import bsearch
-    nb = bsearch.check(facts, res, "C16.4.binary-search")
+    nb = bsearch.check(facts, res, "C16.4.binary-search", maxcount=(64 if tier == "thorough" else 14))
     res.floor("C16.4", nb, 100, "states of the binary-search step")
     treelevel(facts, "findGroupWithCell", "cellBlocks", res)
     treelevel(facts, "findGroupWithLeaf", "particleGroups", res)
